@@ -62,7 +62,7 @@ func classTable(p *core.Program, shortPkg string) [256]int64 {
 // byteEnvFor builds a byte environment for variable obj in fn with the
 // package's class table (if the package has one).
 func byteEnvFor(p *core.Program, fn *core.Func, obj types.Object) *core.ByteEnv {
-	env := &core.ByteEnv{Info: fn.Info(), Var: obj, Tables: map[types.Object][]int64{}}
+	env := &core.ByteEnv{Info: fn.Info(), Var: obj, Tables: map[types.Object][]int64{}, Prog: p}
 	short := core.ShortPkg(fn.Pkg.PkgPath)
 	if v, ok := fn.Pkg.Types.Scope().Lookup("class").(*types.Var); ok {
 		env.Tables[v] = p.ArrayTable(short, "class")
@@ -181,6 +181,115 @@ func verbatimUse(info *types.Info, v *core.V, obj types.Object) bool {
 		}
 	}
 	return false
+}
+
+// sinkExprs returns the byte expressions a vertex hands to an output:
+// buf[i] = X, s = append(s, X, ...), w.WriteByte(X).
+func sinkExprs(info *types.Info, v *core.V) []ast.Expr {
+	var out []ast.Expr
+	switch s := v.AST.(type) {
+	case *ast.AssignStmt:
+		for i, r := range s.Rhs {
+			if call, ok := ast.Unparen(r).(*ast.CallExpr); ok && core.CalleeKey(info, call) == "builtin.append" && !call.Ellipsis.IsValid() {
+				out = append(out, call.Args[1:]...)
+				continue
+			}
+			if i < len(s.Lhs) && len(s.Lhs) == len(s.Rhs) {
+				if _, isIdx := ast.Unparen(s.Lhs[i]).(*ast.IndexExpr); isIdx {
+					out = append(out, r)
+				}
+			}
+		}
+	case *ast.ExprStmt:
+		if call, ok := s.X.(*ast.CallExpr); ok {
+			if se, ok := call.Fun.(*ast.SelectorExpr); ok && se.Sel.Name == "WriteByte" && len(call.Args) == 1 {
+				out = append(out, call.Args[0])
+			}
+		}
+	}
+	return out
+}
+
+// verbatimAt is the state-aware form of verbatimUse: the vertex hands the
+// input byte itself (the variable or a tracked copy of it) to an output.
+// Copies into variables the exploration does not track count as before.
+func verbatimAt(info *types.Info, v *core.V, obj types.Object, st *core.ByteState) bool {
+	for _, x := range sinkExprs(info, v) {
+		if st.IsByte(x) {
+			return true
+		}
+	}
+	if s, ok := v.AST.(*ast.AssignStmt); ok && len(s.Lhs) == len(s.Rhs) {
+		for i, r := range s.Rhs {
+			if !st.IsByte(r) {
+				continue
+			}
+			if id, ok := ast.Unparen(s.Lhs[i]).(*ast.Ident); ok {
+				lo := info.ObjectOf(id)
+				if lo != nil && lo != obj && !st.Tracked(lo) {
+					return true
+				}
+			}
+		}
+	}
+	return false
+}
+
+// constAt is the state-aware form of constStore: the vertex hands a byte
+// with a known value, which is not a copy of the input byte, to an output.
+func constAt(info *types.Info, v *core.V, st *core.ByteState) (int64, bool) {
+	for _, x := range sinkExprs(info, v) {
+		if st.IsByte(x) {
+			continue
+		}
+		if k, ok := st.Int(x); ok {
+			return k, true
+		}
+	}
+	if s, ok := v.AST.(*ast.AssignStmt); ok && len(s.Lhs) == len(s.Rhs) {
+		for i, r := range s.Rhs {
+			id, ok := ast.Unparen(s.Lhs[i]).(*ast.Ident)
+			if !ok {
+				continue
+			}
+			lo := info.ObjectOf(id)
+			if lo == nil || st.Tracked(lo) {
+				continue
+			}
+			if b, ok := lo.Type().Underlying().(*types.Basic); !ok || b.Kind() != types.Uint8 {
+				continue
+			}
+			if k, ok := core.IntConst(info, r); ok {
+				return k, true
+			}
+		}
+	}
+	return 0, false
+}
+
+// byteConstsIn collects the integer constants that occur as right-hand sides
+// or append arguments in the given vertices (candidates for emitted bytes).
+func byteConstsIn(info *types.Info, vs map[*core.V]bool) map[int64]bool {
+	out := map[int64]bool{}
+	for v := range vs {
+		s, ok := v.AST.(*ast.AssignStmt)
+		if !ok {
+			continue
+		}
+		for _, r := range s.Rhs {
+			if k, ok := core.IntConst(info, r); ok && k >= 0 && k < 256 {
+				out[k] = true
+			}
+			if call, ok := ast.Unparen(r).(*ast.CallExpr); ok && core.CalleeKey(info, call) == "builtin.append" {
+				for _, a := range call.Args[1:] {
+					if k, ok := core.IntConst(info, a); ok && k >= 0 && k < 256 {
+						out[k] = true
+					}
+				}
+			}
+		}
+	}
+	return out
 }
 
 // constStore: the vertex stores/appends a constant byte; returns it.
